@@ -668,11 +668,51 @@ func discoverGeneric(c *Ctx) {
 // ---------------------------------------------------------------------------------------------
 // G4 pooled storage does not outlive its release
 
-// isRelease: the call gives its argument back to a pool.
-func releaseArg(cc *ssa.CallCommon) ssa.Value {
+// releaseArg: the call gives its argument back to a pool - directly, or through a function of the tree that hands one of
+// its parameters to a release (depth 2).
+var releaseSummaries = map[*ssa.Function]int{} // function -> index of the parameter it releases (+1), 0 = none
+
+func releasesParam(f *ssa.Function, d int) int {
+	if v, ok := releaseSummaries[f]; ok {
+		return v - 1
+	}
+	releaseSummaries[f] = 0
+	if f == nil || len(f.Blocks) == 0 || d > 2 || f.Pkg == nil || !strings.HasPrefix(f.Pkg.Pkg.Path(), modPath+"/") {
+		return -1
+	}
+	res := -1
+	forEachInstr(f, false, func(_ *ssa.Function, in ssa.Instruction) {
+		ci, ok := in.(ssa.CallInstruction)
+		if !ok {
+			return
+		}
+		v := releaseArgD(ci.Common(), d+1)
+		for v != nil {
+			if mi, isMI := v.(*ssa.MakeInterface); isMI {
+				v = mi.X
+				continue
+			}
+			break
+		}
+		for i, p := range f.Params {
+			if v == ssa.Value(p) {
+				res = i
+			}
+		}
+	})
+	releaseSummaries[f] = res + 1
+	return res
+}
+
+func releaseArg(cc *ssa.CallCommon) ssa.Value { return releaseArgD(cc, 0) }
+
+func releaseArgD(cc *ssa.CallCommon, d int) ssa.Value {
 	f := cc.StaticCallee()
 	if f == nil {
 		return nil
+	}
+	if i := releasesParam(f, d); i >= 0 && i < len(cc.Args) {
+		return cc.Args[i]
 	}
 	switch {
 	case f.Name() == "Put" && f.Signature.Recv() != nil && f.Signature.Recv().Type().String() == "*sync.Pool" && len(cc.Args) == 2:
@@ -787,6 +827,41 @@ func pooledEscapes(fn *ssa.Function) []g4Finding {
 				}
 			}
 			return nil, ""
+		}
+		// the object a field of which holds the released storage is returned at or after the release
+		holder := func(v ssa.Value) ssa.Value {
+			for i := 0; i < 3; i++ {
+				switch x := v.(type) {
+				case *ssa.MakeInterface:
+					v = x.X
+					continue
+				case *ssa.UnOp:
+					if fa, ok := x.X.(*ssa.FieldAddr); ok && x.Op == token.MUL {
+						return fa.X
+					}
+				}
+				break
+			}
+			return nil
+		}
+		if h := holder(r.v); h != nil {
+			for _, u := range refs(h) {
+				// through interface conversions
+				cand := []ssa.Instruction{u}
+				if mi, ok := u.(*ssa.MakeInterface); ok {
+					cand = nil
+					for _, uu := range refs(mi) {
+						cand = append(cand, uu)
+					}
+				}
+				for _, cu := range cand {
+					if ret, ok := cu.(*ssa.Return); ok {
+						if r.deferred || existsPath(fn, r.in, func(x ssa.Instruction) bool { return x == ssa.Instruction(ret) }, nil) != nil {
+							out = append(out, g4Finding{fn, nearestPos(ret), "still referenced by a field of the object that is returned to the caller"})
+						}
+					}
+				}
+			}
 		}
 		for v := range derived {
 			if _, isPtr := v.Type().Underlying().(*types.Slice); !isPtr {
